@@ -153,6 +153,7 @@ impl verif_rt::Hooks for THooks {
         let mut st = self.st.lock().unwrap();
         let pm = match site {
             "file_read" => st.knobs.get("file_read_fail_pm").copied().unwrap_or(0),
+            "decoder_build" => st.knobs.get("decoder_build_fail_pm").copied().unwrap_or(0),
             _ => 0,
         };
         if pm == 0 {
@@ -160,7 +161,7 @@ impl verif_rt::Hooks for THooks {
         }
         let fire = st.env_rng.as_mut().map(|r| r.below(1000) < pm).unwrap_or(false);
         if fire {
-            *st.counts.entry("fault:file-read-EIO").or_insert(0) += 1;
+            *st.counts.entry(if site == "file_read" { "fault:file-read-EIO" } else { "fault:decoder-context-ENOMEM" }).or_insert(0) += 1;
         }
         fire
     }
